@@ -18,6 +18,7 @@ CFG = """SPECIFICATION Spec
 CONSTANTS M = %d
  MaxLen = %d
  NBad = %d
+ Wide = %s
 INVARIANT TypeOK
 INVARIANT RefinesContract
 INVARIANT NoForeignDay
@@ -84,7 +85,7 @@ def run(res):
   from matched_markets.methodology import utils
   thorough = res.tier == 'thorough'
   m, maxlen = (5, 3) if thorough else (3, 3)
-  cfg = CFG % (m, maxlen, NBAD, 'PROPERTY Terminates' if not thorough else '')
+  cfg = CFG % (m, maxlen, NBAD, 'FALSE', 'PROPERTY Terminates' if not thorough else '')
   r = tlc.run_tlc('DayWindows', cfg, tlc.run_dir('C20'), workers=1, timeout=3000)
   tlc.require_clean(r, 'DayWindows')
   res.add_tlc(r, 'DayWindows')
@@ -93,6 +94,26 @@ def run(res):
   cases = r.json_lines()
   if len(cases) != r.init_states or not cases:
     raise tlc.MachineryError('expected one emitted case per initial state (%d), got %d' % (r.init_states, len(cases)))
+  # a longer calendar, proper ranges only: every list of <= 3 ranges on 0..8 (thorough: 0..9), among them the ones in
+  # which a range bridges two others
+  wm = 9 if thorough else 8
+  rw = tlc.run_tlc('DayWindows', CFG % (wm, 3, NBAD, 'TRUE', ''), tlc.run_dir('C20_wide'), workers=1, timeout=3000)
+  tlc.require_clean(rw, 'DayWindows (wide)')
+  res.add_tlc(rw, 'DayWindows.wide')
+  if rw.violated:
+    raise tlc.MachineryError('design-level spec DayWindows (wide) violates %s (spec bug)' % rw.violated)
+  wide = rw.json_lines()
+  if len(wide) != rw.init_states or not wide:
+    raise tlc.MachineryError('wide run: one emitted case per initial state expected (%d), got %d' % (rw.init_states, len(wide)))
+  def bridging(es):
+    return len(es) == 3 and any(
+        es[x]['a'] <= es[z]['a'] <= es[x]['b'] < es[y]['a'] - 1 and es[y]['a'] <= es[z]['b'] <= es[y]['b']
+        for x in range(3) for y in range(3) for z in range(3) if len({x, y, z}) == 3)
+  n_bridge = sum(1 for c in wide if bridging(c['entries']))
+  if n_bridge == 0:
+    raise tlc.MachineryError('vacuous wide run: no list in which one range bridges two others')
+  res.extra['wide_calendar'] = {'last_day': wm, 'lists': len(wide), 'lists_with_a_bridging_range': n_bridge}
+  cases = cases + wide
   res.exhaustive = True
   res.rule = ('all lists of <= %d entries over single days / closed ranges (incl. reversed) on ordinals 0..%d and %d '
               'malformed kinds, enumerated by TLC; distinct = distinct (list, base date, dash spacing) replayed; '
